@@ -125,6 +125,13 @@ Definition run_toy (c : (bool * bool * bool * bool) * (Z * Z * Z * Z) * Z) : lis
   let '((enc, etm, aead, sdctr), (bs, mac, digest, atag), len) := c in
   summary (mk_mode enc etm aead sdctr bs mac) digest atag len.
 
+(* _build_packet called directly (payload length 0 cannot go through send_message, which reads the
+   message type byte): ((enc, etm, aead, sdctr), bs, len) -> [L, pad byte, pad bytes, zero?, len(packet)] *)
+Definition run_build (c : (bool * bool * bool * bool) * Z * Z) : list Z :=
+  let '((enc, etm, aead, sdctr), bs, len) := c in
+  let md := mk_mode enc etm aead sdctr bs 0 in
+  [ length_field md len; pad_byte md len; pad_count md len; b2z (zero_pad md); packet_len md len ].
+
 Definition default_cipher : c03_cipher := mk_cipher String.EmptyString 0 false false.
 Definition default_mac : c03_mac := mk_mac String.EmptyString 0 false 0.
 
